@@ -464,8 +464,9 @@ def _select(ctx, progs, forced=()):
         names = sorted({k[0] for k in keys})
         keys = []
         for k, n in enumerate(names):
-            lv = [l for (m, l) in sorted(by_group) if m == n]
-            keys.append((n, lv[(k + ctx.seed) % len(lv)]))
+            lv = [l for (m, l) in sorted(by_group) if m == n and l != "hand"]
+            if lv:
+                keys.append((n, lv[(k + ctx.seed) % len(lv)]))
     if quick:
         # one level per program (rotating), the regression program at O2; at most 14 groups
         chosen = []
@@ -484,7 +485,8 @@ def _select(ctx, progs, forced=()):
             chosen.append((n, lvl))
         keys = chosen
     for k in sorted(forced_by):
-        if k not in keys and k not in hand_keys and k in by_group:
+        # a rejected pair always gets its group; a pair outside a validator's domain only joins an existing group
+        if k not in keys and k not in hand_keys and k in by_group and any(f.get("verdict") == "rejected" for f in forced_by[k]):
             keys.append(k)
     groups = []
     cover = {}
@@ -506,7 +508,9 @@ def _select(ctx, progs, forced=()):
             rest.sort(key=lambda s: (s["pass"] in VALIDATED, cover.get(s["pass"], 0)))
             pick = forced + rest[:(7 if lvl == "hand" else 6)]
         else:
-            pick = ss
+            # invocations of passes with a proved validator are covered for all inputs by c14_pass_val (the pairs it did not
+            # accept are forced below); the differential takes the others
+            pick = [ss[0], ss[-1]] + [s for s in ss if s["pass"] not in VALIDATED]
         want = {(f["idx"], f["pass"]) for f in forced_by.get((name, lvl), [])}
         pick = pick + [s for s in ss if (s["idx"], s["pass"]) in want]
         for s in sorted({id(x): x for x in pick}.values(), key=lambda s: s["idx"]):
